@@ -18,7 +18,7 @@ Inductive decomp :=
 
 Inductive view :=
 | VValidate | VTensor | VUnfolded (m : nat) | VVec | VNorm | VMatrix | VSlice (i : nat) | VSlices
-| VEin (v : view).   (* view v taken under the einsum tenalg backend, for the family whose einsum route is modelled separately (TT-matrix) *)
+| VEin (v : view).   (* view v taken under the einsum tenalg backend, for the families whose einsum route is modelled separately (CP, Tucker, TT-matrix) *)
 
 Inductive out :=
 | OT (t : tensor Z)                      (* an array *)
@@ -66,6 +66,16 @@ Definition run (d : decomp) (v : view) : out :=
   | DTtm cs, VMatrix => rt (ttm_to_matrix Zops cs)
   | DTtm cs, VUnfolded m => rt (ttm_to_unfolded Zops cs m)
   | DTtm cs, VVec => rt (ttm_to_vec Zops cs)
+  | DCp w fs _, VEin VValidate => match validate_cp w fs with Ok (s, r) => OSR s [r] | Err => OErr end
+  | DCp w fs mask, VEin VTensor => rt (cp_to_tensor_from_einsum Zops (validate_cp w fs) w fs mask)
+  | DCp w fs _, VEin (VUnfolded m) => rt (cp_to_unfolded_from_einsum Zops (validate_cp w fs) w fs m)
+  | DCp w fs _, VEin VVec => rt (cp_to_vec_from_einsum Zops (validate_cp w fs) w fs)
+  | DCp w fs _, VEin VNorm => match cp_normsq Zops w fs with Ok n => ONorm (inject_Z n) | Err => OErr end
+  | DTucker c fs _ _, VEin VValidate => rsr (validate_tucker c fs)
+  | DTucker c fs skip tr, VEin VTensor => rt (tucker_to_tensor_einsum Zops c fs skip tr)
+  | DTucker c fs skip tr, VEin (VUnfolded m) => rt (tucker_to_unfolded_einsum Zops c fs m skip tr)
+  | DTucker c fs skip tr, VEin VVec => rt (tucker_to_vec_einsum Zops c fs skip tr)
+  | DTucker c fs _ _, VEin VNorm => rnorm (tucker_to_tensor_einsum Zops c fs None false)
   | DTtm cs, VEin VValidate => rsr (validate_ttm cs)
   | DTtm cs, VEin VTensor => rt (ttm_to_tensor_einsum Zops cs)
   | DTtm cs, VEin VMatrix => rt (ttm_to_matrix_einsum Zops cs)
@@ -131,7 +141,12 @@ Definition obj_view (d : decomp) (x : obj) (v : view) : out :=
   | OCp o, VUnfolded m => rt (cpo_to_unfolded Zops o m)
   | OCp o, VVec => rt (cpo_to_vec Zops o)
   | OCp o, VNorm => match cpo_normsq Zops o with Ok n => ONorm (inject_Z n) | Err => OErr end
-  | OTk o, VValidate => OSR (tko_shape o) (tko_rank o)
+  | OCp o, VEin VValidate => OSR (cpo_shape o) [cpo_rank o]
+  | OCp o, VEin VTensor => rt (cp_to_tensor_from_einsum Zops (cpo_validate o) (cpo_weights o) (cpo_factors o) (match d with DCp _ _ m => m | _ => None end))
+  | OCp o, VEin (VUnfolded m) => rt (cp_to_unfolded_from_einsum Zops (cpo_validate o) (cpo_weights o) (cpo_factors o) m)
+  | OCp o, VEin VVec => rt (cp_to_vec_from_einsum Zops (cpo_validate o) (cpo_weights o) (cpo_factors o))
+  | OCp o, VEin VNorm => match cpo_normsq Zops o with Ok n => ONorm (inject_Z n) | Err => OErr end
+  | OTk o, VValidate | OTk o, VEin VValidate => OSR (tko_shape o) (tko_rank o)
   | OTk o, v' => let '(skip, tr) := match d with DTucker _ _ s t => (s, t) | _ => (None, false) end in
                  run (DTucker (tko_core o) (tko_factors o) skip tr) v'
   | OTt o, VValidate | OTr o, VValidate | OTtm o, VValidate => OSR (cho_shape o) (cho_rank o)
